@@ -66,7 +66,17 @@ impl Run {
         false
     }
     pub fn line(&mut self, l: &str) -> bool {
-        self.rt.enter(l);
+        // pseudo-lines `@LOAD a|b|c` / `@LOADRUN a|b|c`: what the terminal does for LOAD "f" / RUN "f"
+        // (every line of the file through `load_str`, refused lines skipped, then `set_listing`)
+        if let Some((run, file)) = l.strip_prefix("@LOADRUN ").map(|f| (true, f)).or_else(|| l.strip_prefix("@LOAD ").map(|f| (false, f))) {
+            let mut listing = basic::mach::Listing::default();
+            for fl in file.split('|') {
+                let _ = listing.load_str(fl);
+            }
+            self.rt.set_listing(listing, run);
+        } else {
+            self.rt.enter(l);
+        }
         if self.idle(5000, 3000) {
             return true;
         }
@@ -611,7 +621,7 @@ fn emit<W: Write>(w: &mut W, prop: &str, kind: &str, lines: &[String], replies: 
 // generators
 
 const EDITS: &[&str] = &["15 PRINT \"E\"", "25 A=A+1", "35 REM", "15", "25", "DELETE 15", "DELETE 15-25", "DELETE 1-2", "9", "65000"];
-const DIRECTS: &[&str] = &["PRINT A;B;X", "A=7:B$=\"q\"", "DIM ZZ(3)", "DEFINT A-C", "DEFSTR S", "X=1/0", "PRINT FNA(1)", "READ A", "RESTORE", "PRINT Q(11)", "FOR I=1 TO 2", "GOSUB 99", "CLEAR", "STOP", "END"];
+const DIRECTS: &[&str] = &["PRINT A;B;X", "A=7:B$=\"q\"", "DIM ZZ(3)", "DEFINT A-C", "DEFSTR S", "X=1/0", "PRINT FNA(1)", "READ A", "RESTORE", "PRINT Q(11)", "FOR I=1 TO 2", "GOSUB 99", "CLEAR", "STOP", "END", "DATA 2,3", "IF 1 THEN DATA 7,8", "READ X:PRINT X", "READ X,Y,Z", "DEF FNQ(X)=X", "RESTORE 30"];
 
 /// C04: what runs is the program LIST shows.
 pub fn gen_c04<W: Write>(w: &mut W, tier: &str, seed: u64) {
@@ -627,10 +637,55 @@ pub fn gen_c04<W: Write>(w: &mut W, tier: &str, seed: u64) {
         vec!["10 PRINT 1", "20 STOP", "30 PRINT 3", "RUN", "25 PRINT 2", "CONT"],
         vec!["10 PRINT 1", "20 PRINT 2", "RUN", "DELETE 20", "RUN"],
         vec!["10 PRINT 1", "NEW", "20 PRINT 2", "RUN"],
+        // a refused direct statement leaves nothing behind (no constants, no function, no frames)
+        vec!["10 READ A:PRINT A", "20 READ B:PRINT B", "30 DATA 1", "RUN", "DATA 2", "RUN"],
+        vec!["10 READ A:PRINT A", "20 READ B:PRINT B", "30 DATA 1", "PRINT \"HI\"", "IF 1 THEN DATA 7,8", "READ X,Y:PRINT X;Y"],
+        vec!["10 READ A:PRINT A", "20 READ B:PRINT B", "30 DATA 1", "DATA 2", "RUN 20"],
+        vec!["10 PRINT FNA(2)", "DEF FNA(X)=X", "RUN"],
     ];
     for c in corpus {
         let v: Vec<String> = c.iter().map(|s| s.to_string()).collect();
         emit(w, "C04", "fresh", &v, &[]);
+    }
+    // LOAD "f" / RUN "f" replace the program whatever went on before: afterwards the interpreter behaves as a
+    // fresh one that was given the loaded listing (nothing of the old program, its frames or functions survives)
+    for _ in 0..(if tier == "thorough" { 6_000 } else { 150 }) {
+        let sz = 1 + rng.below(3);
+        let p = gen_program(&mut rng, sz);
+        let mut h: Vec<String> = p.text().into_iter().filter(|l| !l.contains("TRON") && !l.contains("INPUT")).collect();
+        if rng.chance(2, 3) {
+            if rng.chance(1, 2) {
+                h.push(format!("{} STOP", p.lines[rng.below(p.lines.len())].0 + 1));
+            }
+            h.push("RUN".into());
+        }
+        if rng.chance(1, 3) {
+            h.push(rng.pick(DIRECTS).to_string());
+        }
+        let qsz = 1 + rng.below(3);
+        let q = gen_program(&mut rng, qsz);
+        let mut file: Vec<String> = q.text().into_iter().filter(|l| !l.contains("TRON") && !l.contains("INPUT") && !l.contains('|')).collect();
+        if rng.chance(1, 5) {
+            file.push("PRINT \"NOT A PROGRAM LINE\"".into());
+        }
+        let run = rng.chance(1, 3);
+        h.push(format!("{} {}", if run { "@LOADRUN" } else { "@LOAD" }, file.join("|")));
+        if !run && rng.chance(1, 3) {
+            h.push(format!("{} REM edit", 1 + rng.below(9)));
+        }
+        let fin = if run {
+            "RUN".to_string()
+        } else {
+            match rng.below(7) {
+                0 | 1 | 2 => "RUN".to_string(),
+                3 => "CONT".to_string(),
+                4 => "RETURN".to_string(),
+                5 => "NEXT".to_string(),
+                _ => "PRINT FNA(1)".to_string(),
+            }
+        };
+        h.push(fin);
+        emit(w, "C04", "fresh", &h, &[]);
     }
     let n = if tier == "thorough" { 20_000 } else { 500 };
     for _ in 0..n {
@@ -976,6 +1031,30 @@ pub fn gen_c09<W: Write>(w: &mut W, tier: &str, seed: u64) {
             "PRINT X;Y".to_string(),
         ];
         emit(w, "C09", "session", &v, &[]);
+        // RESTORE n with no constant at or after line n leaves nothing to read; one with constants after it
+        // starts at the first of those; a plain RESTORE rewinds to the very first
+        let v = vec![
+            hex(&format!("?OUT OF DATA IN 50\nREADY.\n{}{}{}\nREADY.\n", f(a), f(b), f(0))),
+            format!("10 DATA {},{}", a, b),
+            "20 READ A,B".to_string(),
+            format!("30 DATA {}", c),
+            "40 RESTORE 50".to_string(),
+            "50 READ C".to_string(),
+            "60 PRINT \"NOT REACHED\"".to_string(),
+            "RUN".to_string(),
+            "PRINT A;B;C".to_string(),
+        ];
+        emit(w, "C09", "session", &v, &[]);
+        let v = vec![
+            hex(&format!("{}\nREADY.\n?OUT OF DATA\nREADY.\n{}\nREADY.\n", f(c), f(a))),
+            format!("10 DATA {}", a),
+            format!("20 DATA {}", c),
+            "30 REM NO MORE".to_string(),
+            "RESTORE 20:READ X:PRINT X".to_string(),
+            "RESTORE 30:READ X:PRINT X".to_string(),
+            "RESTORE:READ X:PRINT X".to_string(),
+        ];
+        emit(w, "C09", "session", &v, &[]);
         // conversion to the receiving variable's type, as assignment would: Integer target floors, string into number is an error
         let v = vec![
             hex(&format!("{}{}x\n?TYPE MISMATCH IN 30\nREADY.\n", f(b), f(2))),
@@ -1053,6 +1132,11 @@ pub fn gen_c10<W: Write>(w: &mut W, tier: &str, seed: u64) {
     }
     let fixed: Vec<(Vec<&str>, &str)> = vec![
         (vec!["10 DEF FNA(X)=X+1", "20 PRINT FNA(1,2)"], "?ILLEGAL FUNCTION CALL IN 20; WRONG NUMBER OF ARGUMENTS\nREADY.\n"),
+        (vec!["10 DEF FNA(X,Y)=X*10+Y", "20 PRINT FNA(1,2)", "30 PRINT FNA(1,2,3)", "40 PRINT \"NOT REACHED\""], " 12 \n?ILLEGAL FUNCTION CALL IN 30; WRONG NUMBER OF ARGUMENTS\nREADY.\n"),
+        (vec!["10 DEF FNA(X,Y)=X*10+Y", "20 PRINT FNA(1)"], "?ILLEGAL FUNCTION CALL IN 20; WRONG NUMBER OF ARGUMENTS\nREADY.\n"),
+        (vec!["10 DEF FNA(X,Y,Z)=X+Y+Z", "20 PRINT FNA(1,2,3,4,5)"], "?ILLEGAL FUNCTION CALL IN 20; WRONG NUMBER OF ARGUMENTS\nREADY.\n"),
+        (vec!["10 DEF FNA(X)=X+1", "20 DEF FNB(X)=FNA(X,X)*2", "30 PRINT 100+FNB(4)"], "?ILLEGAL FUNCTION CALL IN 20; WRONG NUMBER OF ARGUMENTS\nREADY.\n"),
+        (vec!["10 DEF FNA$(X$)=X$+\"!\"", "20 PRINT FNA$(\"a\",\"b\")"], "?ILLEGAL FUNCTION CALL IN 20; WRONG NUMBER OF ARGUMENTS\nREADY.\n"),
         (vec!["10 PRINT FNQ(1)"], "?UNDEFINED USER FUNCTION IN 10\nREADY.\n"),
         (vec!["10 DEF FNA(X)=FNB(X)*2", "20 DEF FNB(X)=X+1", "30 PRINT FNA(3)"], " 8 \nREADY.\n"),
         (vec!["10 A=5", "20 DEF FNA(X)=X+A", "30 A=10", "40 PRINT FNA(1)"], " 11 \nREADY.\n"),
